@@ -24,11 +24,17 @@ mod split {
 
 #[dispatch]
 mod split_at {
-    use crate::CelValue;
+    use crate::{CelError, CelResult, CelValue};
 
-    fn split_at(this: String, at: i64) -> Vec<CelValue> {
-        let (left, right) = this.split_at(at as usize);
+    fn split_at(this: String, at: i64) -> CelResult<Vec<CelValue>> {
+        let at = usize::try_from(at).map_err(|_| CelError::value("splitAt: negative offset"))?;
+        if !this.is_char_boundary(at) {
+            return Err(CelError::value(
+                "splitAt: offset is outside the string or inside a character",
+            ));
+        }
+        let (left, right) = this.split_at(at);
 
-        vec![left.into(), right.into()].into()
+        Ok(vec![left.into(), right.into()])
     }
 }
